@@ -107,7 +107,7 @@ theorem F_ge (size : Nat) (st : St) (hg : Good eqb a b size st) (k : Int)
   · unfold F; omega
   · unfold F; omega
 
-set_option maxHeartbeats 1000000 in
+
 /-- one `snake` call and the store into `fp`, under the invariant -/
 theorem stepK_spec (size : Nat) (hmn : a.length ≤ b.length) (hsize : a.length + b.length + 3 ≤ size)
     (heq : EqOn eq eqb a b) (st : St) (k : Int)
